@@ -684,3 +684,480 @@ Proof.
   - vm_compute. right. left. reflexivity.
   - vm_compute. intros [H|[H|[]]]; discriminate H.
 Qed.
+
+(* ------------------------------------------------------------------------------------------ *)
+(* Part F: independence of the document order.
+   Proof device: the denotation of a rule computed from the documents alone (references looked up by
+   key, no positions, no order), shown to be what the conversion stores for the rule. *)
+Fixpoint mapM {A B} (f : A -> option B) (l : list A) : option (list B) :=
+  match l with
+  | [] => Some []
+  | x :: t => match f x, mapM f t with
+              | Some y, Some ys => Some (y :: ys)
+              | _, _ => None
+              end
+  end.
+
+Lemma mapM_mono {A B} (f g : A -> option B) :
+  (forall a b, f a = Some b -> g a = Some b) ->
+  forall l bs, mapM f l = Some bs -> mapM g l = Some bs.
+Proof.
+  intros H. induction l as [|x t IH]; simpl; intros bs E; [assumption|].
+  destruct (f x) as [y|] eqn:Ef; [|discriminate].
+  destruct (mapM f t) as [ys|] eqn:Et; [|discriminate].
+  rewrite (H _ _ Ef), (IH _ eq_refl). assumption.
+Qed.
+
+Lemma mapM_ext {A B} (f g : A -> option B) : (forall a, f a = g a) -> forall l, mapM f l = mapM g l.
+Proof. intros H. induction l as [|x t IH]; simpl; [reflexivity|]. now rewrite H, IH. Qed.
+
+Definition lookupD (ds : list doc) (r : ref) : option doc :=
+  match lookup ds r with Some i => nth_error ds i | None => None end.
+
+(* --- unique keys --- *)
+Definition keyl (r : ref) (ds : list doc) : list str :=
+  match r with RName _ => names ds | RId _ => ids ds end.
+Definition kstr (r : ref) : str := match r with RName n => n | RId n => n end.
+Definition key1 (r : ref) (d : doc) : list str :=
+  match r with
+  | RName _ => match d_name d with Some n => [n] | None => [] end
+  | RId _ => match d_id d with Some n => [n] | None => [] end
+  end.
+
+Lemma keyl_cons r d t : keyl r (d :: t) = key1 r d ++ keyl r t.
+Proof. destruct r; reflexivity. Qed.
+
+Lemma matches_key1 r d : matches r d = true -> In (kstr r) (key1 r d).
+Proof.
+  destruct r as [u|n]; simpl.
+  - destruct (d_id d) as [v|]; [|discriminate]. intros H. apply str_eqb_eq in H. subst. now left.
+  - destruct (d_name d) as [v|]; [|discriminate]. intros H. apply str_eqb_eq in H. subst. now left.
+Qed.
+
+Lemma matches_keyl r d ds : In d ds -> matches r d = true -> In (kstr r) (keyl r ds).
+Proof.
+  induction ds as [|x t IH]; intros Hin Hm; [contradiction|].
+  rewrite keyl_cons. apply in_or_app. destruct Hin as [->|Hin].
+  - left. now apply matches_key1.
+  - right. now apply IH.
+Qed.
+
+Lemma unique_keys_keyl ds r : unique_keys ds -> NoDup (keyl r ds).
+Proof. intros [H1 H2]. destruct r; assumption. Qed.
+
+Lemma NoDup_app_r {A} (a b : list A) : NoDup (a ++ b) -> NoDup b.
+Proof. induction a as [|x a IH]; simpl; [auto|]. intros H. inversion H; auto. Qed.
+
+Lemma unique_position r : forall ds i i' d1 d2,
+  NoDup (keyl r ds) -> nth_error ds i = Some d1 -> nth_error ds i' = Some d2 ->
+  matches r d1 = true -> matches r d2 = true -> i = i'.
+Proof.
+  induction ds as [|d t IH]; intros i i' d1 d2 Hnd H1 H2 M1 M2.
+  - destruct i; discriminate.
+  - rewrite keyl_cons in Hnd. destruct i as [|i], i' as [|i']; simpl in *.
+    + reflexivity.
+    + exfalso. inversion H1; subst. apply nth_error_In in H2.
+      eapply NoDup_app_disjoint; [exact Hnd | apply matches_key1; eassumption | eapply matches_keyl; eassumption].
+    + exfalso. inversion H2; subst. apply nth_error_In in H1.
+      eapply NoDup_app_disjoint; [exact Hnd | apply matches_key1; eassumption | eapply matches_keyl; eassumption].
+    + f_equal. eapply IH; eauto. eapply NoDup_app_r; eauto.
+Qed.
+
+Lemma lookupD_Some ds r d : lookupD ds r = Some d -> In d ds /\ matches r d = true.
+Proof.
+  unfold lookupD. destruct (lookup ds r) as [i|] eqn:E; [|discriminate].
+  intros H. apply lookup_Some in E. destruct E as [d' [Hd Hm]].
+  assert (d' = d) by congruence. subst. split; [eapply nth_error_In; eauto | assumption].
+Qed.
+
+Lemma lookupD_None ds r : lookupD ds r = None -> dangling ds r.
+Proof.
+  unfold lookupD. destruct (lookup ds r) as [i|] eqn:E.
+  - apply lookup_Some in E. destruct E as [d [Hd _]]. congruence.
+  - intros _. now apply lookup_None.
+Qed.
+
+Lemma lookupD_unique ds r d :
+  unique_keys ds -> In d ds -> matches r d = true -> lookupD ds r = Some d.
+Proof.
+  intros Hu Hin Hm. unfold lookupD. destruct (lookup ds r) as [i|] eqn:E.
+  - destruct (lookup_Some _ _ _ E) as [d' [Hd' Hm']].
+    apply In_nth_error in Hin. destruct Hin as [k Hk].
+    assert (i = k) by (eapply unique_position; eauto using unique_keys_keyl). subst. congruence.
+  - apply lookup_None in E. rewrite (E d Hin) in Hm. discriminate.
+Qed.
+
+Lemma unique_keys_perm p ds : Permutation p ds -> unique_keys ds -> unique_keys p.
+Proof.
+  intros P [H1 H2]. split.
+  - eapply Permutation_NoDup; [|exact H1]. unfold names. symmetry. now apply Permutation_flat_map.
+  - eapply Permutation_NoDup; [|exact H2]. unfold ids. symmetry. now apply Permutation_flat_map.
+Qed.
+
+Lemma lookupD_perm p ds r : Permutation p ds -> unique_keys ds -> lookupD p r = lookupD ds r.
+Proof.
+  intros P Hu. destruct (lookupD ds r) as [d|] eqn:E.
+  - apply lookupD_Some in E. destruct E as [Hin Hm].
+    apply lookupD_unique; auto.
+    + eapply unique_keys_perm; eauto.
+    + eapply Permutation_in; [symmetry; exact P | exact Hin].
+  - apply lookupD_None in E. destruct (lookupD p r) as [d'|] eqn:E'; [|reflexivity].
+    apply lookupD_Some in E'. destruct E' as [Hin Hm].
+    rewrite (E d') in Hm; [discriminate|]. eapply Permutation_in; eauto.
+Qed.
+
+Section Den.
+  Variable Q : Type.
+  Variable rplain : doc -> list Q.
+  Variable rcorr : doc -> list (doc * list Q) -> list Q.
+
+  Definition dstep (den : doc -> option (list Q)) (ds : list doc) (r : ref) : option (doc * list Q) :=
+    match lookupD ds r with
+    | Some d' => match den d' with Some q => Some (d', q) | None => None end
+    | None => None
+    end.
+
+  Fixpoint denD (f : nat) (ds : list doc) (d : doc) : option (list Q) :=
+    match f with
+    | 0 => None
+    | S f' => if is_corr d
+              then match mapM (dstep (denD f' ds) ds) (doc_refs d) with
+                   | Some subs => Some (rcorr d subs)
+                   | None => None
+                   end
+              else Some (rplain d)
+    end.
+
+  Lemma denD_eq f ds d :
+    denD (S f) ds d = if is_corr d
+                      then match mapM (dstep (denD f ds) ds) (doc_refs d) with
+                           | Some subs => Some (rcorr d subs)
+                           | None => None
+                           end
+                      else Some (rplain d).
+  Proof. reflexivity. Qed.
+
+  Lemma denD_S f ds : forall d q, denD f ds d = Some q -> denD (S f) ds d = Some q.
+  Proof.
+    induction f as [|f IH]; intros d q H; [discriminate|].
+    rewrite denD_eq in H. rewrite (denD_eq (S f)). destruct (is_corr d); [|assumption].
+    destruct (mapM (dstep (denD f ds) ds) (doc_refs d)) as [subs|] eqn:E; [|discriminate].
+    erewrite mapM_mono; [exact H | | exact E].
+    intros r b. unfold dstep. destruct (lookupD ds r) as [d'|]; [|discriminate].
+    destruct (denD f ds d') as [q'|] eqn:E'; [|discriminate].
+    now rewrite (IH _ _ E').
+  Qed.
+
+  Lemma denD_mono f f' ds d q : f <= f' -> denD f ds d = Some q -> denD f' ds d = Some q.
+  Proof. intros Hle; induction Hle; auto. intros Hq. apply denD_S. auto. Qed.
+
+  Lemma denD_ext p ds : (forall r, lookupD p r = lookupD ds r) -> forall f d, denD f p d = denD f ds d.
+  Proof.
+    intros H. induction f as [|f IH]; intros d; [reflexivity|].
+    rewrite !denD_eq. destruct (is_corr d); [|reflexivity].
+    erewrite mapM_ext; [reflexivity|].
+    intros r. unfold dstep. rewrite H. destruct (lookupD ds r); [|reflexivity]. now rewrite IH.
+  Qed.
+
+  Notation get := (get Q).
+  Notation run := (run Q rplain rcorr).
+
+  Section RunDen.
+    Variable ds : list doc.
+    Variable rr : list (list nat).
+    Hypothesis Hr : resolve_all ds = Some rr.
+
+    Definition RI (res : results Q) : Prop :=
+      forall j qs, get res j = Some qs -> exists d f, nth_error ds j = Some d /\ denD f ds d = Some qs.
+
+    Lemma resolved_row i d : nth_error ds i = Some d -> resolve_refs ds (doc_refs d) = Some (children rr i).
+    Proof.
+      intros Hd. pose proof (resolve_each_Some _ _ _ Hr) as F2.
+      assert (L : forall (l : list doc) (l' : list (list nat)),
+                 Forall2 (fun d js => resolve_refs ds (doc_refs d) = Some js) l l' ->
+                 forall i d, nth_error l i = Some d -> resolve_refs ds (doc_refs d) = Some (nth i l' [])).
+      { induction 1 as [|x y l l' Hxy _ IH]; intros k z Hz; destruct k; simpl in *; try discriminate.
+        - inversion Hz; subst. assumption.
+        - now apply IH. }
+      exact (L _ _ F2 _ _ Hd).
+    Qed.
+
+    Lemma collect_den res : RI res -> forall rs js subs,
+      Forall2 (fun r j => lookup ds r = Some j) rs js ->
+      collect Q ds res js = Some subs ->
+      exists F, mapM (dstep (denD F ds) ds) rs = Some subs.
+    Proof.
+      intros HRI. induction rs as [|r rs IH]; intros js subs HF Hc.
+      - inversion HF; subst. simpl in Hc. inversion Hc; subst. exists 0. reflexivity.
+      - inversion HF as [|? j ? js' Hl HF']; subst. simpl in Hc.
+        destruct (nth_error ds j) as [d'|] eqn:Ed; [|discriminate].
+        destruct (get res j) as [q'|] eqn:Eg; [|discriminate].
+        destruct (collect Q ds res js') as [subs'|] eqn:Ec; [|discriminate].
+        inversion Hc; subst.
+        destruct (HRI _ _ Eg) as [d'' [f [Hd'' Hden]]].
+        assert (d'' = d') by congruence. subst.
+        destruct (IH _ _ HF' Ec) as [F' HF''].
+        exists (Nat.max f F'). simpl.
+        assert (E1 : dstep (denD (Nat.max f F') ds) ds r = Some (d', q')).
+        { unfold dstep, lookupD. rewrite Hl, Ed.
+          rewrite (denD_mono f _ _ _ _ (Nat.le_max_l f F') Hden). reflexivity. }
+        rewrite E1. erewrite mapM_mono; [reflexivity | | exact HF''].
+        intros a b. unfold dstep. destruct (lookupD ds a) as [x|]; [|discriminate].
+        destruct (denD F' ds x) as [qx|] eqn:Ex; [|discriminate].
+        now rewrite (denD_mono F' _ _ _ _ (Nat.le_max_r f F') Ex).
+    Qed.
+
+    Lemma conv_rule_den res i q : RI res ->
+      conv_rule Q rplain rcorr ds rr res i = Some q ->
+      exists d f, nth_error ds i = Some d /\ denD f ds d = Some q.
+    Proof.
+      intros HRI. unfold conv_rule. destruct (nth_error ds i) as [d|] eqn:Ed; [|discriminate].
+      destruct (is_corr d) eqn:Ec.
+      - destruct (collect Q ds res (children rr i)) as [subs|] eqn:E; [|discriminate].
+        intros H. inversion H; subst.
+        pose proof (resolve_refs_Some _ _ _ (resolved_row _ _ Ed)) as HF.
+        destruct (collect_den res HRI _ _ _ HF E) as [F HFm].
+        exists d, (S F). split; [reflexivity|]. rewrite denD_eq. now rewrite Ec, HFm.
+      - intros H. inversion H; subst. exists d, 1. split; [reflexivity|]. rewrite denD_eq. now rewrite Ec.
+    Qed.
+
+    Lemma run_RI ac : forall ord res em res' em',
+      run ac ds rr ord res em = Some (res', em') -> RI res -> RI res'.
+    Proof.
+      induction ord as [|i t IH]; simpl; intros res em res' em' H HRI.
+      - inversion H; subst. assumption.
+      - destruct (conv_rule Q rplain rcorr ds rr res i) as [q|] eqn:Ec; [|discriminate].
+        eapply IH; [exact H|].
+        intros j qs. rewrite get_cons. destruct (Nat.eqb i j) eqn:E.
+        + apply Nat.eqb_eq in E. subst. intros Hq. inversion Hq; subst.
+          eapply conv_rule_den; eauto.
+        + apply HRI.
+    Qed.
+  End RunDen.
+
+  (* does a rule emit, from the documents alone *)
+  Definition emitsD (ds : list doc) (d : doc) : bool :=
+    negb (existsb (fun c => is_corr c && negb (doc_generate c) && existsb (fun r => matches r d) (doc_refs c)) ds).
+
+  Lemma emitsD_perm p ds d : Permutation p ds -> emitsD p d = emitsD ds d.
+  Proof.
+    intros P. unfold emitsD. f_equal.
+    set (f := fun c => _).
+    destruct (existsb f ds) eqn:E.
+    - apply existsb_exists in E. destruct E as [x [Hx Hf]]. apply existsb_exists. exists x. split; auto.
+      eapply Permutation_in; [symmetry; exact P | exact Hx].
+    - destruct (existsb f p) eqn:E'; [|reflexivity].
+      apply existsb_exists in E'. destruct E' as [x [Hx Hf]].
+      assert (existsb f ds = true) by (apply existsb_exists; exists x; split; auto; eapply Permutation_in; eauto).
+      congruence.
+  Qed.
+
+  Lemma Forall2_In_l {A B} (R : A -> B -> Prop) l l' x :
+    Forall2 R l l' -> In x l -> exists y, In y l' /\ R x y.
+  Proof.
+    induction 1 as [|a b l l' Hab _ IH]; intros Hin; [contradiction|].
+    destruct Hin as [<-|Hin]; [exists b; split; [now left | assumption]|].
+    destruct (IH Hin) as [y [Hy Hxy]]. exists y. split; [now right | assumption].
+  Qed.
+
+  Lemma output_flag_emitsD ds rr i d :
+    resolve_all ds = Some rr -> unique_keys ds -> nth_error ds i = Some d ->
+    output_flag ds rr i = emitsD ds d.
+  Proof.
+    intros Hr Hu Hd.
+    assert (H : output_flag ds rr i = false <-> emitsD ds d = false).
+    { rewrite (output_flag_false _ _ i Hr). unfold emitsD. rewrite negb_false_iff, existsb_exists. split.
+      - intros [k [c [Hc [Hcorr [Hg Hi]]]]]. exists c. split; [eapply nth_error_In; eauto|].
+        rewrite Hcorr, Hg. simpl. apply existsb_exists.
+        destruct (resolved_children _ _ _ _ Hr Hi) as [c' [Hc' [r [Hrin Hl]]]].
+        assert (c' = c) by congruence. subst. exists r. split; [assumption|].
+        destruct (lookup_Some _ _ _ Hl) as [t [Ht Hm]]. congruence.
+      - intros [c [Hcin H]]. apply andb_true_iff in H. destruct H as [H H3].
+        apply andb_true_iff in H. destruct H as [H1 H2]. apply negb_true_iff in H2.
+        apply existsb_exists in H3. destruct H3 as [r [Hrin Hm]].
+        apply In_nth_error in Hcin. destruct Hcin as [k Hk].
+        exists k, c. repeat split; auto.
+        pose proof (resolve_refs_Some _ _ _ (resolved_row ds rr Hr _ _ Hk)) as HF.
+        destruct (Forall2_In_l _ _ _ _ HF Hrin) as [j [Hj Hl]].
+        destruct (lookup_Some _ _ _ Hl) as [t [Ht Hmt]].
+        assert (j = i) by (eapply unique_position; eauto using unique_keys_keyl). subst. exact Hj. }
+    destruct (output_flag ds rr i), (emitsD ds d); try reflexivity.
+    - destruct H as [_ H]. discriminate (H eq_refl).
+    - destruct H as [H _]. discriminate (H eq_refl).
+  Qed.
+
+  Definition G (F : nat) (ds : list doc) (d : doc) : list (doc * Q) :=
+    if emitsD ds d then map (pair d) (match denD F ds d with Some q => q | None => [] end) else [].
+
+  Lemma map_flat_map {A B C} (f : B -> C) (g : A -> list B) l :
+    map f (flat_map g l) = flat_map (fun x => map f (g x)) l.
+  Proof. induction l as [|x t IH]; simpl; [reflexivity|]. now rewrite map_app, IH. Qed.
+
+  Lemma flat_map_ext_in {A B} (f g : A -> list B) l :
+    (forall x, In x l -> f x = g x) -> flat_map f l = flat_map g l.
+  Proof.
+    induction l as [|x t IH]; simpl; intros H; [reflexivity|].
+    rewrite (H x) by now left. rewrite IH; [reflexivity|]. intros y Hy. apply H. now right.
+  Qed.
+
+  Lemma flat_map_seq_nth {B} (g : doc -> list B) ds :
+    flat_map (fun i => g (nth i ds no_doc)) (seq 0 (length ds)) = flat_map g ds.
+  Proof.
+    induction ds as [|d t IH]; [reflexivity|].
+    cbn [length seq flat_map]. cbn [nth]. f_equal.
+    rewrite <- seq_shift, flat_map_concat_map, map_map, <- flat_map_concat_map. exact IH.
+  Qed.
+
+  Lemma common_fuel ds (res : results Q) : forall l,
+    (forall i, In i l -> exists d f, nth_error ds i = Some d /\ denD f ds d = Some (own Q res i)) ->
+    exists F, forall i, In i l -> exists d, nth_error ds i = Some d /\ denD F ds d = Some (own Q res i).
+  Proof.
+    induction l as [|k t IH]; intros H.
+    - exists 0. intros i [].
+    - destruct IH as [F' HF']; [intros i Hi; apply H; now right|].
+      destruct (H k (or_introl eq_refl)) as [d [f [Hd Hden]]].
+      exists (Nat.max f F'). intros i [<-|Hi].
+      + exists d. split; [assumption|]. eapply denD_mono; [apply Nat.le_max_l | exact Hden].
+      + destruct (HF' i Hi) as [d' [Hd' Hden']]. exists d'. split; [assumption|].
+        eapply denD_mono; [apply Nat.le_max_r | exact Hden'].
+  Qed.
+
+  Lemma pipeline_emitted_den ds c :
+    pipeline Q rplain rcorr ds = Ok c -> unique_keys ds ->
+    exists F, (forall d, In d ds -> denD F ds d <> None) /\
+              Permutation (by_doc ds (c_emitted c)) (flat_map (G F ds) ds).
+  Proof.
+    intros H Hu. destruct (pipeline_Ok _ _ _ _ _ H) as [rr [Hr [_ [_ Hrun]]]].
+    destruct (order_conv_perm _ _ _ _ _ H) as [_ P2].
+    assert (N2 : NoDup (c_order_conv c)) by (eapply Permutation_NoDup; [symmetry; exact P2 | apply seq_NoDup]).
+    destruct (run_emitted Q rplain rcorr ds rr _ _ _ _ _ N2 Hrun) as [E Hall]. simpl in E.
+    assert (HRI : RI ds (c_results c)).
+    { eapply run_RI; [exact Hr | exact Hrun |]. intros j qs Hq. discriminate. }
+    destruct (common_fuel ds (c_results c) (c_order_conv c)) as [F HF].
+    { intros i Hi. specialize (Hall i Hi). unfold own.
+      destruct (get (c_results c) i) as [qs|] eqn:Eg; [|congruence]. apply HRI. assumption. }
+    exists F. split.
+    - intros d Hd. apply In_nth_error in Hd. destruct Hd as [i Hi].
+      assert (Hio : In i (c_order_conv c)).
+      { eapply Permutation_in; [symmetry; exact P2|]. apply in_seq.
+        assert (i < length ds) by (apply nth_error_Some; congruence). lia. }
+      destruct (HF i Hio) as [d' [Hd' Hden]]. assert (d' = d) by congruence. subst. congruence.
+    - rewrite E. unfold by_doc. rewrite map_flat_map.
+      rewrite (flat_map_ext_in _ (fun i => G F ds (nth i ds no_doc))).
+      + rewrite (Permutation_flat_map _ P2). rewrite flat_map_seq_nth. apply Permutation_refl.
+      + intros i Hi. destruct (HF i Hi) as [d [Hd Hden]].
+        rewrite (nth_error_nth _ _ no_doc Hd). unfold G.
+        rewrite <- (output_flag_emitsD _ _ _ _ Hr Hu Hd), Hden.
+        destruct (output_flag ds rr i); [|reflexivity].
+        rewrite map_map. cbn [fst snd]. rewrite (nth_error_nth _ _ no_doc Hd). reflexivity.
+  Qed.
+
+  Theorem emitted_order_independent p ds c' c :
+    Permutation p ds -> unique_keys ds ->
+    pipeline Q rplain rcorr p = Ok c' -> pipeline Q rplain rcorr ds = Ok c ->
+    Permutation (by_doc p (c_emitted c')) (by_doc ds (c_emitted c)).
+  Proof.
+    intros P Hu Hp Hd.
+    assert (Hup : unique_keys p) by (eapply unique_keys_perm; eauto).
+    destruct (pipeline_emitted_den _ _ Hp Hup) as [F' [D' E']].
+    destruct (pipeline_emitted_den _ _ Hd Hu) as [F [D E]].
+    rewrite E', E.
+    assert (HL : forall r, lookupD p r = lookupD ds r) by (intros r; now apply lookupD_perm).
+    set (Fm := Nat.max F F').
+    rewrite (flat_map_ext_in (G F' p) (G Fm ds) p).
+    - rewrite (flat_map_ext_in (G F ds) (G Fm ds) ds).
+      + now apply Permutation_flat_map.
+      + intros d Hin. unfold G. destruct (denD F ds d) as [q|] eqn:Eq; [|now apply D in Eq].
+        now rewrite (denD_mono F Fm _ _ _ (Nat.le_max_l F F') Eq).
+    - intros d Hin. unfold G. rewrite (emitsD_perm _ _ _ P).
+      destruct (denD F' p d) as [q|] eqn:Eq; [|now apply D' in Eq].
+      rewrite <- (denD_ext p ds HL Fm d).
+      now rewrite (denD_mono F' Fm _ _ _ (Nat.le_max_r F F') Eq).
+  Qed.
+End Den.
+
+(* ---- success / failure is the same in every order ---- *)
+Lemma has_dangling_perm p ds : Permutation p ds -> has_dangling p -> has_dangling ds.
+Proof.
+  intros P [c [r [Hc [Hr Hd]]]]. exists c, r. repeat split; auto.
+  - eapply Permutation_in; eauto.
+  - intros d Hin. apply Hd. eapply Permutation_in; [symmetry; exact P | exact Hin].
+Qed.
+
+Lemma clos_trans_map {A B} (R : A -> A -> Prop) (R' : B -> B -> Prop) (g : A -> B) :
+  (forall x y, R x y -> R' (g x) (g y)) ->
+  forall x y, clos_trans A R x y -> clos_trans B R' (g x) (g y).
+Proof.
+  intros H x y C. induction C as [x y Hxy | x y z _ IH1 _ IH2].
+  - apply t_step. auto.
+  - eapply t_trans; eauto.
+Qed.
+
+Lemma acyclic_docs_index ds rr : resolve_all ds = Some rr -> acyclic_docs ds -> acyclic rr.
+Proof.
+  intros Hr Hac i C. apply (Hac (nth i ds no_doc)).
+  revert C. apply (clos_trans_map (refers rr) (refers_doc ds) (fun x => nth x ds no_doc)).
+  intros c r Hcr. unfold refers in Hcr.
+  destruct (resolved_children _ _ _ _ Hr Hcr) as [d [Hd [x [Hx Hl]]]].
+  destruct (lookup_Some _ _ _ Hl) as [t [Ht Hm]].
+  rewrite (nth_error_nth _ _ no_doc Hd), (nth_error_nth _ _ no_doc Ht).
+  repeat split; eauto using nth_error_In.
+Qed.
+
+Lemma acyclic_docs_perm p ds : Permutation p ds -> acyclic_docs ds -> acyclic_docs p.
+Proof.
+  intros P Hac d C. apply (Hac d). revert C.
+  apply (clos_trans_map (refers_doc p) (refers_doc ds) (fun x => x)).
+  intros x y [H1 [H2 H3]]. repeat split; auto; eapply Permutation_in; eauto.
+Qed.
+
+Theorem order_independent Q rplain rcorr p ds :
+  Permutation p ds -> unique_keys ds -> acyclic_docs ds ->
+  same_outcome p ds (pipeline Q rplain rcorr p) (pipeline Q rplain rcorr ds).
+Proof.
+  intros P Hu Hac. unfold same_outcome.
+  destruct (resolve_all ds) as [rr|] eqn:Er.
+  - destruct (resolve_all p) as [rr'|] eqn:Er'.
+    + destruct (pipeline_total Q rplain rcorr ds rr Er (acyclic_docs_index _ _ Er Hac)) as [c Hc].
+      destruct (pipeline_total Q rplain rcorr p rr' Er'
+                  (acyclic_docs_index _ _ Er' (acyclic_docs_perm _ _ P Hac))) as [c' Hc'].
+      rewrite Hc, Hc'. eapply emitted_order_independent; eauto.
+    + apply resolve_all_None in Er'. apply (has_dangling_perm _ _ P) in Er'.
+      apply resolve_all_None in Er'. congruence.
+  - assert (Hd : has_dangling ds) by now apply resolve_all_None.
+    assert (Hp : has_dangling p) by (eapply has_dangling_perm; [symmetry; exact P | exact Hd]).
+    apply (pipeline_missing_ref Q rplain rcorr) in Hd. apply (pipeline_missing_ref Q rplain rcorr) in Hp.
+    rewrite Hd, Hp. reflexivity.
+Qed.
+
+Lemma by_title_by_doc {Q} ds (em : list (nat * Q)) :
+  by_title ds em = map (fun dq => (d_title (fst dq), snd dq)) (by_doc ds em).
+Proof. unfold by_title, by_doc. rewrite map_map. reflexivity. Qed.
+
+Theorem order_independent_by_title Q rplain rcorr p ds c' c :
+  Permutation p ds -> unique_keys ds ->
+  pipeline Q rplain rcorr p = Ok c' -> pipeline Q rplain rcorr ds = Ok c ->
+  Permutation (by_title p (c_emitted c')) (by_title ds (c_emitted c)).
+Proof.
+  intros P Hu Hp Hd. rewrite !by_title_by_doc. apply Permutation_map.
+  eapply emitted_order_independent; eauto.
+Qed.
+
+(* the premises are inhabited by the witness rule set of D22 *)
+Lemma wit_premises : unique_keys wit_docs /\ acyclic_docs wit_docs.
+Proof.
+  split.
+  - split; vm_compute; repeat constructor; simpl; intuition discriminate.
+  - assert (Hr : resolve_all wit_docs = Some [[]; []; []; [0; 1]; [3; 2]]) by reflexivity.
+    (* rank: documents are ranked by their position; every reference points to a smaller position *)
+    set (rank := fun d : doc => match d_title d with [97%N] => 0 | [98%N] => 1 | [117%N] => 2 | [99%N] => 3 | _ => 4 end).
+    assert (E : forall c d, refers_doc wit_docs c d -> rank d < rank c).
+    { intros c d [Hc [Hd [r [Hrin Hm]]]].
+      simpl in Hc, Hd.
+      repeat (destruct Hc as [<-|Hc]; [simpl in Hrin|]); try contradiction;
+      repeat (destruct Hrin as [<-|Hrin]; [|]); try contradiction;
+      repeat (destruct Hd as [<-|Hd]; [try discriminate Hm; try (vm_compute; lia)|]); try contradiction. }
+    assert (T : forall c d, clos_trans doc (refers_doc wit_docs) c d -> rank d < rank c).
+    { intros c d C. induction C; [auto | lia]. }
+    intros d C. apply T in C. lia.
+Qed.
